@@ -120,10 +120,21 @@ func (l *letGen) use(depth int) ast.Expr {
 func (l *letGen) wide() ast.Expr {
 	t := l.t
 	n := gen.Pick(t, "widen", []int{9, 16, 17, 18, 33, 40})
+	tower := rapid.Bool().Draw(t, "tower")
+	distinct := n
+	if tower {
+		// towers may be much taller than a single let is wide, and may bind a
+		// name again further in (the innermost binding wins)
+		n = gen.Pick(t, "towern", []int{9, 17, 19, 33, 40, 63, 64, 65, 66, 129, 130})
+		distinct = n
+		if rapid.Bool().Draw(t, "rebinding") {
+			distinct = rapid.IntRange(1, n).Draw(t, "distinctnames")
+		}
+	}
 	names := make([]string, n)
 	vals := make([]ast.Expr, n)
 	for i := range names {
-		names[i] = "v" + strconv.Itoa(i)
+		names[i] = "v" + strconv.Itoa(i%distinct)
 		vals[i] = ast.Lit(jv.VInt(int64(100 + i)))
 		if i%5 == 4 {
 			vals[i] = l.field()
@@ -144,7 +155,7 @@ func (l *letGen) wide() ast.Expr {
 		body = &ast.Let{Names: []string{gen.Pick(t, "midname", []string{"x", "y", "v0", "v3"})}, Vals: []ast.Expr{l.value(3)}, Body: body}
 	}
 	l.vars = l.vars[:saved]
-	if rapid.Bool().Draw(t, "tower") {
+	if tower {
 		for i := n - 1; i >= 0; i-- {
 			body = &ast.Let{Names: names[i : i+1], Vals: vals[i : i+1], Body: body}
 		}
@@ -399,7 +410,6 @@ func init() {
 		return run.SameOutcome(o1, o2, r.Loose)
 	}
 }
-
 
 // valueSize counts the nodes of v, giving up at limit.
 func valueSize(v jv.Val, limit int) int {
